@@ -196,6 +196,7 @@ func lemmaL3(e, t, t1 uint64, i int, s uint64) bool {
 //@   callback expireNode: requires [expired-node-exists] cb_n != nil
 
 //@ func (*Variable).DeleteExpired : C13 C07
+//@   counted
 //@   requires wfWheel(v) && ghost_hasExp() && ghost_hasExpLinks() && nowNanos >= 0
 //@   modifies $SWEEPFX, v.time, ghost_calls_deleteExpiredFromBucket()
 //@   loop 1: unroll 5
